@@ -179,6 +179,7 @@ func lemmaTypedEqualsRawI64(a *I64, idx int32) (int64, bool, []byte, bool) {
 //@   ensures exists(k, 0, len(index)-1, index[k] >= index[k+1]) ==> result == ErrIndexNotAscending
 //@   ensures result != nil ==> a.Cnt == old(a.Cnt) && sameslice(a.Bitmaps, old(a.Bitmaps)) && sameslice(a.Offsets, old(a.Offsets))
 //@   ensures result == nil ==> int(a.Cnt) == len(index)
+//@   ensures result == nil ==> ones(a.Bitmaps) == len(index)
 //@   ensures result == nil ==> len(a.Offsets) >= len(a.Bitmaps)
 //@   ensures result == nil ==> len(a.Bitmaps) == ite(len(index) == 0, 0, (int(index[len(index)-1]) + 64)/64)
 //@   ensures result == nil ==> forall(k, 0, len(a.Bitmaps), ite(a.Bitmaps[k] == 0, a.Offsets[k] == 0, int(a.Offsets[k]) == rank1w(a.Bitmaps, k)) && 0 <= a.Offsets[k])
